@@ -113,6 +113,12 @@ func errClass(err error) string {
 		return "err notimpl"
 	case errors.Is(err, runtime.ErrKeyUnmanaged):
 		return "err unmanaged"
+	case errors.Is(err, runtime.ErrInjected):
+		return "err injected"
+	case errors.Is(err, runtime.ErrKeyTaken):
+		return "err taken"
+	case strings.Contains(err.Error(), "database storage is not injected"):
+		return "err notinjected" // getController of an injected database nobody has injected yet (no sentinel error)
 	}
 	return "err other:" + strings.ReplaceAll(err.Error(), " ", "_")
 }
@@ -345,9 +351,13 @@ type world struct {
 	cancels []context.CancelFunc
 	queries map[string]*query.Query
 	subs    []*subState
-	hooks   map[string]*database.RegisteredHook
-	hx      map[string]*hxHook
+	hooks   map[string]*database.RegisteredHook // registrations, by registration id
+	hx      map[string]*hxHook                  // hook values, by their own id
 	push    func(record.Record)
+	// runtime registry (kind reg): the registry itself, the push functions Register handed out, by provider id
+	reg      *runtime.Registry
+	pushes   map[string]runtime.PushFunc
+	injected bool
 
 	callMu sync.Mutex
 	calls  []string
@@ -381,6 +391,10 @@ func (w *world) open(kind string, shadow bool) string {
 	if w.dbName != "" {
 		return "bad-op"
 	}
+	raw := kind == "regraw" // a fresh registry only: nothing registered, not injected
+	if raw {
+		kind = "reg"
+	}
 	w.kind, w.shadow = kind, shadow
 	w.dbName = fmt.Sprintf("c14x%d", atomic.AddInt64(&dbCounter, 1))
 	st := kind
@@ -399,20 +413,18 @@ func (w *world) open(kind string, shadow bool) string {
 		w.ctrl = c
 		w.push = c.PushUpdate
 	case "reg":
-		reg := runtime.NewRegistry()
-		if err := reg.InjectAsDatabase(w.dbName); err != nil {
-			return "err other:" + err.Error()
+		w.reg = runtime.NewRegistry()
+		w.pushes = map[string]runtime.PushFunc{}
+		if raw {
+			break
 		}
-		pf, err := reg.Register(regPrefix, &regProvider{m: map[string]*Rec{}})
-		if err != nil {
-			return "err other:" + err.Error()
+		// the order the runtime module itself uses: inject, then register
+		if out := w.inject(); out != "ok" {
+			return out
 		}
-		w.push = func(r record.Record) { pf(r) }
-		c, err := database.VerifController(w.dbName)
-		if err != nil {
-			return "err other:" + err.Error()
+		if out := w.provide("0", regPrefix); out != "ok" {
+			return out
 		}
-		w.ctrl = c
 	default:
 		c, err := database.VerifController(w.dbName)
 		if err != nil {
@@ -420,6 +432,33 @@ func (w *world) open(kind string, shadow bool) string {
 		}
 		w.ctrl = c
 		w.push = c.PushUpdate
+	}
+	return "ok"
+}
+
+// inject: Registry.InjectAsDatabase.
+func (w *world) inject() string {
+	if err := w.reg.InjectAsDatabase(w.dbName); err != nil {
+		return errClass(err)
+	}
+	w.injected = true
+	c, err := database.VerifController(w.dbName)
+	if err != nil {
+		return "err other:" + err.Error()
+	}
+	w.ctrl = c
+	return "ok"
+}
+
+// provide: Registry.Register of a fresh map-backed provider; the push function is kept under the provider id.
+func (w *world) provide(pid, keyOrPrefix string) string {
+	pf, err := w.reg.Register(keyOrPrefix, &regProvider{m: map[string]*Rec{}})
+	if err != nil {
+		return errClass(err)
+	}
+	w.pushes[pid] = pf
+	if pid == "0" {
+		w.push = func(r record.Record) { pf(r) }
 	}
 	return "ok"
 }
@@ -701,6 +740,12 @@ func (w *world) Do(line string) string {
 		}
 		return purgeCase(atomic.AddInt64(&dbCounter, 1), n, f[2])
 	}
+	if f[0] == "hookdbs" { // NoModel: one hook value registered on two databases
+		if len(f) < 2 || len(f) > 60 {
+			return "bad-op"
+		}
+		return hookDbs(atomic.AddInt64(&dbCounter, 1), f[1:])
+	}
 	if f[0] == "cfgops" { // NoModel: the real config StorageInterface behind the database interface
 		if len(f) < 2 || len(f) > 40 {
 			return "bad-op"
@@ -712,7 +757,7 @@ func (w *world) Do(line string) string {
 			return "bad-op"
 		}
 		switch f[1] {
-		case "hashmap", "bbolt", "inj", "reg":
+		case "hashmap", "bbolt", "inj", "reg", "regraw":
 		default:
 			return "bad-op"
 		}
@@ -752,6 +797,9 @@ func (w *world) Do(line string) string {
 		}
 		s, err := w.iface(f[2]).Subscribe(q)
 		if err != nil {
+			if c := errClass(err); c == "err notinjected" {
+				return c
+			}
 			return "err query"
 		}
 		w.subs = append(w.subs, &subState{sid: f[1], sub: s})
@@ -784,17 +832,87 @@ func (w *world) Do(line string) string {
 			return "bad-op"
 		}
 		q, ok := w.queries[f[2]]
-		if !ok || !isNum(f[1]) || w.hx[f[1]] != nil || !okBeh(f[3], false) || !okBeh(f[4], true) || !okBeh(f[5], true) {
+		if !ok || !isNum(f[1]) || w.hx[f[1]] != nil || w.hooks[f[1]] != nil || !okBeh(f[3], false) || !okBeh(f[4], true) || !okBeh(f[5], true) {
 			return "bad-op"
 		}
 		h := &hxHook{w: w, id: f[1], pg: f[3], og: f[4], pp: f[5]}
 		rh, err := database.RegisterHook(q, h)
 		if err != nil {
+			if c := errClass(err); c == "err notinjected" {
+				return c
+			}
 			return "err query"
 		}
 		w.hx[f[1]] = h
 		w.hooks[f[1]] = rh
 		return "ok"
+	case "rehook": // rehook <rid> <hid> <qid>: the SAME hook value <hid> registered once more, as registration <rid>
+		if len(f) != 4 || !isNum(f[1]) || !isNum(f[2]) || w.hx[f[1]] != nil || w.hooks[f[1]] != nil || w.hx[f[2]] == nil {
+			return "bad-op"
+		}
+		q, ok := w.queries[f[3]]
+		if !ok {
+			return "bad-op"
+		}
+		rh, err := database.RegisterHook(q, w.hx[f[2]])
+		if err != nil {
+			if c := errClass(err); c == "err notinjected" {
+				return c
+			}
+			return "err query"
+		}
+		w.hooks[f[1]] = rh
+		return "ok"
+	case "inject":
+		if len(f) != 1 || w.reg == nil {
+			return "bad-op"
+		}
+		return w.inject()
+	case "prov": // prov <pid> <key or prefix/>: Registry.Register
+		if len(f) != 3 || w.reg == nil || !isNum(f[1]) || !okKey(f[2]) || w.pushes[f[1]] != nil {
+			return "bad-op"
+		}
+		return w.provide(f[1], f[2])
+	case "ppushn": // ppushn <pid> <k> <key> <n> <s> <flags>: ONE call of the variadic push function with k records (N = n, n+1, …)
+		if len(f) != 7 || w.reg == nil || w.pushes[f[1]] == nil || !okKey(f[3]) || !okStr(f[5]) || !okFlags(f[6]) {
+			return "bad-op"
+		}
+		k, err1 := strconv.Atoi(f[2])
+		n, err2 := strconv.ParseInt(f[4], 10, 64)
+		if err1 != nil || err2 != nil || k < 2 || k > 4 || strings.HasPrefix(f[2], "+") || strings.HasPrefix(f[2], "0") {
+			return "bad-op"
+		}
+		recs := make([]record.Record, k)
+		for j := range recs {
+			recs[j] = w.newRec(f[3], n+int64(j), f[5], unq(f[6]))
+		}
+		func() {
+			for _, r := range recs {
+				r.Lock()
+			}
+			defer func() {
+				for _, r := range recs {
+					r.Unlock()
+				}
+			}()
+			w.pushes[f[1]](recs...)
+		}()
+		return "ok" + w.takeCalls()
+	case "ppush": // ppush <pid> <key> <n> <s> <flags>: the push function Register returned for provider <pid>
+		if len(f) != 6 || w.reg == nil || w.pushes[sel(f, 1)] == nil || !okKey(f[2]) || !okStr(f[4]) || !okFlags(f[5]) {
+			return "bad-op"
+		}
+		n, err := strconv.ParseInt(f[3], 10, 64)
+		if err != nil {
+			return "bad-op"
+		}
+		r := w.newRec(f[2], n, f[4], unq(f[5]))
+		func() {
+			r.Lock()
+			defer r.Unlock()
+			w.pushes[f[1]](r)
+		}()
+		return "ok" + w.takeCalls()
 	case "unhook":
 		if len(f) != 2 || w.hooks[f[1]] == nil {
 			return "bad-op"
@@ -804,7 +922,7 @@ func (w *world) Do(line string) string {
 		if f[0] == "push" {
 			f = append([]string{"push", "LI"}, f[1:]...)
 		}
-		if len(f) != 6 || !w.ifaceFor(f[0], f[1]) || !okKey(f[2]) || !okStr(f[4]) || !okFlags(f[5]) {
+		if len(f) != 6 || !w.ifaceFor(f[0], f[1]) || !okKey(f[2]) || !okStr(f[4]) || !okFlags(f[5]) || (f[0] == "push" && w.push == nil) {
 			return "bad-op"
 		}
 		n, err := strconv.ParseInt(f[3], 10, 64)
@@ -903,8 +1021,13 @@ func (w *world) Do(line string) string {
 		if len(f) != 2 || !okKey(f[1]) {
 			return "bad-op"
 		}
-		st, err := database.VerifStorage(w.dbName)
-		if err != nil {
+		var st interface {
+			Get(string) (record.Record, error)
+		}
+		var err error
+		if w.reg != nil {
+			st = w.reg // the registry is its own storage, injected or not
+		} else if st, err = database.VerifStorage(w.dbName); err != nil {
 			return "err other:" + err.Error()
 		}
 		r, err := st.Get(f[1])
@@ -915,6 +1038,9 @@ func (w *world) Do(line string) string {
 	case "sizes":
 		if len(f) != 1 {
 			return "bad-op"
+		}
+		if w.reg != nil && !w.injected {
+			return "subs=0 hooks=0" // no controller yet: nothing can be listed
 		}
 		s, h, err := database.VerifListSizes(w.dbName)
 		if err != nil {
